@@ -169,7 +169,7 @@ Proof.
   intros HM HS Hn (mem & ec & mean & ti & cc & ic & ld & Hc & Hm).
   exists mem, ec, mean, ti, cc, ic, ld. split.
   - eapply modonly_keep; eauto.
-  - eapply modonly_imm; eauto. cbn; lia.
+  - eapply modonly_imm; eauto.
 Qed.
 
 (* rewriting a cluster slot without changing its member-list pointer *)
@@ -295,4 +295,1450 @@ Proof.
       * eapply modonly_incl; [|exact HM']. intros x Hx. right; auto.
     + intros x [<-|Hx]; auto.
       eapply clus_modonly; eauto. apply isclus_mut; auto.
+Qed.
+
+(* ------------------------------------------------------------------ *)
+(* state descriptions                                                  *)
+(* ------------------------------------------------------------------ *)
+
+Definition SD (h : heap) (s a cl : loc) (lab : option loc) (cost : option (list nat)) (data : loc)
+           (K m : nat) (lam beta : option loc) (cs : list loc) : Prop :=
+  get h s = Some (OState a cl lab cost data) /\
+  get h a = Some (OArgs K m lam beta) /\
+  get h cl = Some (ORefs cs) /\ length cs = K /\ NoDup cs /\
+  (forall c, In c cs -> isclus h c) /\
+  (forall l, lab = Some l -> exists ls, get h l = Some (OList ls)).
+
+Lemma WF_SD h s : WF h s <->
+  exists a cl lab cost data K m lam beta cs, SD h s a cl lab cost data K m lam beta cs.
+Proof.
+  split.
+  - intros (a & cl & lab & cost & data & K & m & lam & beta & cs & H1 & H2 & H3 & H4 & H5 & H6 & H7).
+    exists a, cl, lab, cost, data, K, m, lam, beta, cs. repeat split; auto.
+    intros c Hc. destruct (H6 c Hc) as (mem & ec & mean & ti & cc & ic & ld & ms & A & B).
+    exists ms, mem, ec, mean, ti, cc, ic, ld. auto.
+  - intros (a & cl & lab & cost & data & K & m & lam & beta & cs & H1 & H2 & H3 & H4 & H5 & H6 & H7).
+    exists a, cl, lab, cost, data, K, m, lam, beta, cs. repeat split; auto.
+    intros c Hc. destruct (H6 c Hc) as (ms & mem & ec & mean & ti & cc & ic & ld & A & B).
+    exists mem, ec, mean, ti, cc, ic, ld, ms. auto.
+Qed.
+
+Section SDfacts.
+Variables (h : heap) (s a cl : loc) (lab : option loc) (cost : option (list nat)) (data : loc)
+          (K m : nat) (lam beta : option loc) (cs : list loc).
+Hypothesis HSD : SD h s a cl lab cost data K m lam beta cs.
+
+Lemma SD_clusters : state_clusters h s = cs.
+Proof.
+  destruct HSD as (H1 & H2 & H3 & _). unfold state_clusters, get_refs. rewrite H1, H3. reflexivity.
+Qed.
+
+Lemma SD_refs : get_refs h cl = cs.
+Proof. destruct HSD as (H1 & H2 & H3 & _). unfold get_refs. rewrite H3. reflexivity. Qed.
+
+Lemma SD_K : state_K h s = K.
+Proof. destruct HSD as (H1 & H2 & _). unfold state_K. rewrite H1, H2. reflexivity. Qed.
+
+Lemma SD_m : state_m h s = m.
+Proof. destruct HSD as (H1 & H2 & _). unfold state_m. rewrite H1, H2. reflexivity. Qed.
+
+Lemma SD_labels : state_labels h s = match lab with Some l => Some (get_list h l) | None => None end.
+Proof. destruct HSD as (H1 & _). unfold state_labels. rewrite H1. destruct lab; reflexivity. Qed.
+
+Lemma SD_firstn : firstn K cs = cs.
+Proof. destruct HSD as (_ & _ & _ & H4 & _). apply firstn_all2. lia. Qed.
+
+Lemma SD_skipn : skipn K cs = [].
+Proof. destruct HSD as (_ & _ & _ & H4 & _). apply skipn_all2. lia. Qed.
+
+Lemma SD_mut : mut h (s :: cs).
+Proof.
+  destruct HSD as (H1 & _ & _ & _ & _ & H6 & _).
+  intros x [<-|Hx].
+  - eexists; split; [exact H1|cbn; lia].
+  - apply (isclus_mut _ _ H6); auto.
+Qed.
+
+Lemma SD_s_notin : ~ In s cs.
+Proof.
+  destruct HSD as (H1 & _ & _ & _ & _ & H6 & _). intros Hin.
+  destruct (H6 s Hin) as (ms & mem & ec & mean & ti & cc & ic & ld & A & B). congruence.
+Qed.
+
+(* transport along a modification of s and the clusters only *)
+Lemma SD_modonly S h' lab' cost' :
+  modonly S h h' -> mut h S ->
+  get h' s = Some (OState a cl lab' cost' data) ->
+  (forall c, In c cs -> isclus h' c) ->
+  (forall l, lab' = Some l -> exists ls, get h' l = Some (OList ls)) ->
+  SD h' s a cl lab' cost' data K m lam beta cs.
+Proof.
+  intros HM HS Hs Hc Hl.
+  destruct HSD as (H1 & H2 & H3 & H4 & H5 & H6 & H7).
+  repeat split; auto.
+  - eapply modonly_imm; eauto; cbn; lia.
+  - eapply modonly_imm; eauto; cbn; lia.
+Qed.
+End SDfacts.
+
+(* the invariant in terms of a description *)
+Definition InvD (h : heap) (lab : option loc) (cs : list loc) : Prop :=
+  match lab with
+  | Some l => forall k c, nth_error cs k = Some c -> clus h c (positions (get_list h l) k)
+  | None => forall c, In c cs -> clus h c []
+  end.
+
+Lemma Inv_InvD h s a cl lab cost data K m lam beta cs :
+  SD h s a cl lab cost data K m lam beta cs -> (Inv h s <-> InvD h lab cs).
+Proof.
+  intros HSD. unfold Inv, InvD.
+  rewrite (SD_clusters _ _ _ _ _ _ _ _ _ _ _ _ HSD), (SD_K _ _ _ _ _ _ _ _ _ _ _ _ HSD),
+          (SD_labels _ _ _ _ _ _ _ _ _ _ _ _ HSD).
+  destruct HSD as (H1 & H2 & H3 & H4 & H5 & H6 & H7).
+  destruct lab as [l|]; split.
+  - intros [_ H] k c Hk. destruct (H6 c (nth_error_In _ _ Hk)) as [ms Hc].
+    rewrite <- (H k c Hk), (clus_members _ _ _ Hc). auto.
+  - intros H. split; auto. intros k c Hk. apply clus_members. auto.
+  - intros [_ H] c Hc. destruct (H6 c Hc) as [ms Hx].
+    rewrite <- (H c Hc), (clus_members _ _ _ Hx). auto.
+  - intros H. split; auto. intros c Hc. apply clus_members. auto.
+Qed.
+
+Lemma get_list_eq h l ls : get h l = Some (OList ls) -> get_list h l = ls.
+Proof. unfold get_list. intros ->. reflexivity. Qed.
+
+(* ------------------------------------------------------------------ *)
+(* set_labels                                                          *)
+(* ------------------------------------------------------------------ *)
+
+Lemma set_labels_spec h s a cl lab cost data K m lam beta cs l ls :
+  SD h s a cl lab cost data K m lam beta cs -> get h l = Some (OList ls) ->
+  (set_labels h s l = h /\ exists o, lab = Some o /\ get h o = Some (OList ls)) \/
+  (modonly (s :: cs) h (set_labels h s l) /\
+   get (set_labels h s l) s = Some (OState a cl (Some l) cost data) /\
+   forall k c, nth_error cs k = Some c -> clus (set_labels h s l) c (positions ls k)).
+Proof.
+  intros HSD Hl.
+  pose proof (SD_refs _ _ _ _ _ _ _ _ _ _ _ _ HSD) as Hrefs.
+  pose proof (SD_K _ _ _ _ _ _ _ _ _ _ _ _ HSD) as HK.
+  pose proof (SD_firstn _ _ _ _ _ _ _ _ _ _ _ _ HSD) as Hfn.
+  pose proof (SD_s_notin _ _ _ _ _ _ _ _ _ _ _ _ HSD) as Hsn.
+  destruct HSD as (H1 & H2 & H3 & H4 & H5 & H6 & H7).
+  unfold set_labels. rewrite H1. rewrite (get_list_eq _ _ _ Hl), Hrefs, HK, Hfn.
+  assert (Hcase : (exists o, lab = Some o /\ get h o = Some (OList ls)) \/
+                  match lab with Some o => list_eqb ls (get_list h o) | None => false end = false).
+  { destruct lab as [o|]; auto.
+    destruct (list_eqb ls (get_list h o)) eqn:E; auto.
+    left. exists o. split; auto. destruct (H7 o eq_refl) as [ls' Ho].
+    rewrite (get_list_eq _ _ _ Ho) in E. apply list_eqb_eq in E. subst; auto. }
+  destruct Hcase as [(o & -> & Ho)|Hf].
+  - left. rewrite (get_list_eq _ _ _ Ho).
+    replace (list_eqb ls ls) with true by (symmetry; apply list_eqb_eq; auto).
+    split; auto. eauto.
+  - right. rewrite Hf.
+    set (h1 := upd h s (OState a cl (Some l) cost data)).
+    assert (HM1 : modonly [s] h h1) by apply modonly_upd.
+    assert (Hms : mut h [s]).
+    { intros x [<-|[]]. eexists; split; [exact H1|cbn; lia]. }
+    assert (Hs1 : get h1 s = Some (OState a cl (Some l) cost data)).
+    { apply get_upd_same. eapply get_lt; eauto. }
+    assert (Hcl1 : forall c, In c cs -> isclus h1 c).
+    { intros c Hc. eapply isclus_modonly; eauto. intros [->|[]]. contradiction. }
+    assert (Hfin : forall h', modonly cs h1 h' ->
+              modonly (s :: cs) h h' /\ get h' s = Some (OState a cl (Some l) cost data)).
+    { intros h' HM'. split.
+      - eapply modonly_trans.
+        + eapply modonly_incl; [|exact HM1]. intros x [<-|[]]; left; auto.
+        + eapply modonly_incl; [|exact HM']. intros x Hx; right; auto.
+      - eapply modonly_keep; eauto. }
+    destruct (length ls =? 0) eqn:E0.
+    + apply Nat.eqb_eq in E0. destruct ls; [|discriminate].
+      destruct (clear_membership_spec cs h1 H5 Hcl1) as [HM' HC'].
+      destruct (Hfin _ HM') as [A B]. split; [|split]; auto.
+      intros k c Hk. rewrite positions_nil. apply HC'. eapply nth_error_In; eauto.
+    + destruct (update_membership_spec ls cs h1 0 H5 Hcl1) as [HM' HC'].
+      destruct (Hfin _ HM') as [A B]. split; [|split]; auto.
+Qed.
+
+(* consequences: description and invariant after set_labels *)
+Lemma set_labels_SD h s a cl lab cost data K m lam beta cs l ls :
+  SD h s a cl lab cost data K m lam beta cs -> get h l = Some (OList ls) ->
+  exists lab', SD (set_labels h s l) s a cl lab' cost data K m lam beta cs /\
+    modonly (s :: cs) h (set_labels h s l) /\
+    (exists l', lab' = Some l' /\ get (set_labels h s l) l' = Some (OList ls)) /\
+    (InvD h lab cs -> InvD (set_labels h s l) lab' cs).
+Proof.
+  intros HSD Hl.
+  pose proof (SD_mut _ _ _ _ _ _ _ _ _ _ _ _ HSD) as Hmut.
+  destruct (set_labels_spec _ _ _ _ _ _ _ _ _ _ _ _ _ _ HSD Hl) as [[E (o & -> & Ho)]|(HM & Hs & HC)].
+  - rewrite E. exists (Some o). split; auto. split; [apply modonly_refl|]. split; eauto.
+  - assert (Hl' : get (set_labels h s l) l = Some (OList ls)).
+    { eapply modonly_imm; eauto; cbn; lia. }
+    exists (Some l). split; [|split; [|split]]; auto.
+    + eapply SD_modonly; eauto.
+      * intros c Hc. apply In_nth_error in Hc. destruct Hc as [k Hk]. eexists. eauto.
+      * intros l0 E. inversion E; subst. eauto.
+    + eauto.
+    + intros _. unfold InvD. rewrite (get_list_eq _ _ _ Hl'). auto.
+Qed.
+
+(* ------------------------------------------------------------------ *)
+(* allocation-only functions                                           *)
+(* ------------------------------------------------------------------ *)
+
+Lemma F2_imp {A B} (R S : A -> B -> Prop) l l' :
+  (forall x y, R x y -> S x y) -> Forall2 R l l' -> Forall2 S l l'.
+Proof. intros H; induction 1; constructor; auto. Qed.
+
+Lemma F2_nth_r {A B} (R : A -> B -> Prop) l l' :
+  Forall2 R l l' -> forall k y, nth_error l' k = Some y -> exists x, nth_error l k = Some x /\ R x y.
+Proof.
+  induction 1 as [|x y l l' Hxy HF IH]; intros [|k] z Hk; cbn in *; try discriminate.
+  - inversion Hk; subst. eauto.
+  - eauto.
+Qed.
+
+Lemma F2_in_r {A B} (R : A -> B -> Prop) l l' :
+  Forall2 R l l' -> forall y, In y l' -> exists x, In x l /\ R x y.
+Proof.
+  intros HF y Hy. apply In_nth_error in Hy. destruct Hy as [k Hk].
+  destruct (F2_nth_r _ _ _ HF k y Hk) as [x [Hx HR]]. exists x. split; auto.
+  eapply nth_error_In; eauto.
+Qed.
+
+Lemma new_cluster_eq h ms ec mean ti cc ic ld :
+  new_cluster h ms ec mean ti cc ic ld =
+  (h ++ [OList ms; OCluster (length h) ec mean ti cc ic ld], S (length h)).
+Proof.
+  unfold new_cluster, alloc. rewrite <- app_assoc, app_length. cbn [app length].
+  rewrite Nat.add_1_r. reflexivity.
+Qed.
+
+Lemma new_cluster_spec h ms ec mean ti cc ic ld h' c' :
+  new_cluster h ms ec mean ti cc ic ld = (h', c') ->
+  ext h h' /\ length h <= c' < length h' /\
+  get h' c' = Some (OCluster (length h) ec mean ti cc ic ld) /\
+  get h' (length h) = Some (OList ms) /\ length h < length h'.
+Proof.
+  rewrite new_cluster_eq. intros E. inversion E; subst.
+  split; [apply ext_app|]. rewrite app_length. cbn [length].
+  split; [lia|]. split; [apply get_app_new2|]. split; [apply get_app_new|lia].
+Qed.
+
+Definition oarr (h : heap) (x : option loc) : Prop :=
+  forall l, x = Some l -> exists c, get h l = Some (OArr c).
+
+Lemma oarr_ext h h' x : ext h h' -> oarr h x -> oarr h' x.
+Proof. intros HE H l Hl. destruct (H l Hl) as [c Hc]. exists c. eapply ext_get; eauto. Qed.
+
+Lemma copy_arr_spec h a h' a' :
+  copy_arr h a = (h', a') ->
+  ext h h' /\ (oarr h a -> exists l c, a' = Some l /\ length h <= l /\ get h' l = Some (OArr c)).
+Proof.
+  unfold copy_arr, alloc. destruct a as [l|].
+  - destruct (get h l) as [[| c | | | |]|] eqn:E; intros Eq; inversion Eq; subst;
+      (split; [try apply ext_refl; try apply ext_app|]); intros Ha;
+      destruct (Ha l eq_refl) as [c' Hc']; try congruence.
+    exists (length h), c. split; auto. split; auto. apply get_app_new.
+  - intros Eq; inversion Eq; subst. split; [apply ext_app|]. intros _.
+    exists (length h), []. split; auto. split; auto. apply get_app_new.
+Qed.
+
+(* freshness of a copied optional array field *)
+Definition fr (h h' : heap) (x x' : option loc) : Prop :=
+  oarr h x -> exists l c, x' = Some l /\ length h <= l /\ get h' l = Some (OArr c).
+
+Lemma fr_mono h0 h h1 h' x x' : ext h0 h -> ext h1 h' -> fr h h1 x x' -> fr h0 h' x x'.
+Proof.
+  intros E0 E1 H Hx. destruct (H (oarr_ext _ _ _ E0 Hx)) as (l & c & A & B & C).
+  exists l, c. split; auto. split; [destruct E0; lia|]. eapply ext_get; eauto.
+Qed.
+
+Lemma cluster_deep_copy_spec h c mem ec mean ti cc ic ld ms h' c' :
+  get h c = Some (OCluster mem ec mean ti cc ic ld) -> get h mem = Some (OList ms) ->
+  cluster_deep_copy h c = (h', c') ->
+  ext h h' /\ length h <= c' < length h' /\
+  exists mem' ec' mean' ti' cc' ic',
+    get h' c' = Some (OCluster mem' ec' mean' ti' cc' ic' ld) /\
+    get h' mem' = Some (OList ms) /\ length h <= mem' /\
+    fr h h' ec ec' /\ fr h h' mean mean' /\ fr h h' ti ti' /\ fr h h' cc cc' /\ fr h h' ic ic'.
+Proof.
+  intros Hc Hm. unfold cluster_deep_copy. rewrite Hc. rewrite (get_list_eq _ _ _ Hm).
+  destruct (copy_arr h cc) as [h1 cc'] eqn:E1.
+  destruct (copy_arr h1 ec) as [h2 ec'] eqn:E2.
+  destruct (copy_arr h2 ic) as [h3 ic'] eqn:E3.
+  destruct (copy_arr h3 mean) as [h4 mean'] eqn:E4.
+  destruct (copy_arr h4 ti) as [h5 ti'] eqn:E5.
+  intros E6.
+  apply copy_arr_spec in E1, E2, E3, E4, E5.
+  destruct E1 as [X1 F1], E2 as [X2 F2], E3 as [X3 F3], E4 as [X4 F4], E5 as [X5 F5].
+  apply new_cluster_spec in E6. destruct E6 as (X6 & Hc' & G1 & G2 & G3).
+  assert (Y2 : ext h h2) by (eapply ext_trans; eauto).
+  assert (Y3 : ext h h3) by (eapply ext_trans; eauto).
+  assert (Y4 : ext h h4) by (eapply ext_trans; eauto).
+  assert (Y5 : ext h h5) by (eapply ext_trans; eauto).
+  assert (Y6 : ext h h') by (eapply ext_trans; eauto).
+  assert (Z5 : ext h5 h') by auto.
+  assert (Z4 : ext h4 h') by (eapply ext_trans; eauto).
+  assert (Z3 : ext h3 h') by (eapply ext_trans; eauto).
+  assert (Z2 : ext h2 h') by (eapply ext_trans; eauto).
+  assert (Z1 : ext h1 h') by (eapply ext_trans; eauto).
+  pose proof (ext_len _ _ Y5) as L5.
+  split; auto. split; [lia|].
+  exists (length h5), ec', mean', ti', cc', ic'.
+  split; auto. split; auto. split; auto.
+  split; [|split; [|split; [|split]]].
+  - eapply (fr_mono h h1 h2 h'); eauto.
+  - eapply (fr_mono h h3 h4 h'); eauto.
+  - eapply (fr_mono h h4 h5 h'); eauto.
+  - eapply (fr_mono h h h1 h'); eauto. apply ext_refl.
+  - eapply (fr_mono h h2 h3 h'); eauto.
+Qed.
+
+Lemma cluster_deep_copy_clus h c h' c' ms :
+  clus h c ms -> cluster_deep_copy h c = (h', c') ->
+  ext h h' /\ length h <= c' < length h' /\ clus h' c' ms.
+Proof.
+  intros (mem & ec & mean & ti & cc & ic & ld & Hc & Hm) E.
+  destruct (cluster_deep_copy_spec _ _ _ _ _ _ _ _ _ _ _ _ Hc Hm E)
+    as (A & B & mem' & ec' & mean' & ti' & cc' & ic' & C & D & _).
+  split; auto. split; auto. exists mem', ec', mean', ti', cc', ic', ld. auto.
+Qed.
+
+Lemma cluster_shallow_copy_spec h c mem ec mean ti cc ic ld ms h' c' :
+  get h c = Some (OCluster mem ec mean ti cc ic ld) -> get h mem = Some (OList ms) ->
+  cluster_shallow_copy h c = (h', c') ->
+  ext h h' /\ length h <= c' < length h' /\
+  get h' c' = Some (OCluster (length h) ec mean ti cc ic ld) /\
+  get h' (length h) = Some (OList ms) /\ length h < length h'.
+Proof.
+  intros Hc Hm. unfold cluster_shallow_copy. rewrite Hc, (get_list_eq _ _ _ Hm).
+  apply new_cluster_spec.
+Qed.
+
+Lemma stat_cluster_clus b h c h' c' ms :
+  clus h c ms -> stat_cluster b h c = (h', c') ->
+  ext h h' /\ length h <= c' < length h' /\ clus h' c' ms.
+Proof.
+  intros (mem & ec & mean & ti & cc & ic & ld & Hc & Hm). unfold stat_cluster.
+  destruct (cluster_shallow_copy h c) as [h1 c1] eqn:E1.
+  destruct (cluster_shallow_copy_spec _ _ _ _ _ _ _ _ _ _ _ _ Hc Hm E1) as (X1 & B1 & G1 & G2 & L1).
+  rewrite G1. unfold alloc. cbv beta iota. intros E. inversion E; subst. clear E.
+  set (h3 := (h1 ++ _) ++ _).
+  assert (X3 : ext h1 h3).
+  { unfold h3. eapply ext_trans; apply ext_app. }
+  split; [|split].
+  - apply ext_upd_fresh; [eapply ext_trans; eauto|lia].
+  - rewrite length_upd. destruct X3; lia.
+  - eapply upd_cluster_clus.
+    + eapply ext_get; eauto.
+    + exists (length h), ec, mean, ti, cc, ic, ld. split; eapply ext_get; eauto.
+Qed.
+
+Lemma opt_cluster_clus mrf h k c h' c' ms :
+  clus h c ms -> opt_cluster mrf h (k, c) = (h', c') ->
+  ext h h' /\ length h <= c' < length h' /\ clus h' c' ms.
+Proof.
+  intros (mem & ec & mean & ti & cc & ic & ld & Hc & Hm). unfold opt_cluster.
+  destruct (cluster_shallow_copy h c) as [h1 c1] eqn:E1.
+  destruct (cluster_shallow_copy_spec _ _ _ _ _ _ _ _ _ _ _ _ Hc Hm E1) as (X1 & B1 & G1 & G2 & L1).
+  rewrite G1. unfold alloc. cbv beta iota. intros E. inversion E; subst. clear E.
+  set (h3 := (h1 ++ _) ++ _).
+  assert (X3 : ext h1 h3).
+  { unfold h3. eapply ext_trans; apply ext_app. }
+  split; [|split].
+  - apply ext_upd_fresh; [eapply ext_trans; eauto|lia].
+  - rewrite length_upd. destruct X3; lia.
+  - eapply upd_cluster_clus.
+    + eapply ext_get; eauto.
+    + exists (length h), ec, mean, ti, cc, ic, ld. split; eapply ext_get; eauto.
+Qed.
+
+Lemma isclus_ext h h' c : ext h h' -> isclus h c -> isclus h' c.
+Proof. intros E [ms H]. exists ms. eapply clus_ext; eauto. Qed.
+
+(* generic map over the heap *)
+Section MapHeap.
+Variable f : heap -> nat * loc -> heap * loc.
+Hypothesis Hf : forall h kc h' c', isclus h (snd kc) -> f h kc = (h', c') ->
+                                   ext h h' /\ length h <= c' < length h'.
+
+Lemma map_heap_idx_spec : forall cs h k h' cs',
+  map_heap_idx f h k cs = (h', cs') -> (forall c, In c cs -> isclus h c) ->
+  ext h h' /\ Forall (fun c' => length h <= c' < length h') cs' /\ NoDup cs' /\
+  Forall2 (fun c c' => exists ha hb k', ext h ha /\ ext hb h' /\ f ha (k', c) = (hb, c')) cs cs'.
+Proof.
+  induction cs as [|c r IH]; intros h k h' cs' E Hcl; cbn [map_heap_idx] in E.
+  - inversion E; subst. split; [apply ext_refl|]. repeat constructor.
+  - destruct (f h (k, c)) as [h1 c1] eqn:E1.
+    destruct (map_heap_idx f h1 (S k) r) as [h2 r2] eqn:E2.
+    inversion E; subst. clear E.
+    destruct (Hf h (k, c) h1 c1 (Hcl c (in_eq _ _)) E1) as [X1 B1].
+    assert (Hcl1 : forall x, In x r -> isclus h1 x).
+    { intros x Hx. eapply isclus_ext; eauto. apply Hcl; right; auto. }
+    destruct (IH h1 (S k) h' r2 E2 Hcl1) as (X2 & FA & ND & F2).
+    pose proof (ext_len _ _ X1) as L1. pose proof (ext_len _ _ X2) as L2.
+    split; [eapply ext_trans; eauto|]. split; [|split].
+    + constructor; [lia|]. eapply Forall_impl; [|exact FA]. cbn beta. intros; lia.
+    + constructor; auto. intros Hin. rewrite Forall_forall in FA.
+      specialize (FA c1 Hin). lia.
+    + constructor.
+      * exists h, h1, k. split; [apply ext_refl|]. auto.
+      * eapply F2_imp; [|exact F2]. cbn beta.
+        intros x y (ha & hb & k' & A & B & C). exists ha, hb, k'.
+        split; auto. eapply ext_trans; eauto.
+Qed.
+
+Hypothesis Hf2 : forall h kc h' c' ms, clus h (snd kc) ms -> f h kc = (h', c') -> clus h' c' ms.
+
+Lemma map_heap_idx_clus cs h k h' cs' :
+  map_heap_idx f h k cs = (h', cs') -> (forall c, In c cs -> isclus h c) ->
+  ext h h' /\ Forall (fun c' => length h <= c' < length h') cs' /\ NoDup cs' /\
+  length cs' = length cs /\
+  Forall2 (fun c c' => forall ms, clus h c ms -> clus h' c' ms) cs cs'.
+Proof.
+  intros E Hcl. destruct (map_heap_idx_spec cs h k h' cs' E Hcl) as (X & FA & ND & F2).
+  split; auto. split; auto. split; auto. split; [eapply F2_len; eauto|].
+  eapply F2_imp; [|exact F2]. cbn beta.
+  intros x y (ha & hb & k' & A & B & C) ms Hms.
+  eapply clus_ext; [exact B|]. eapply (Hf2 ha (k', x)); eauto. cbn. eapply clus_ext; eauto.
+Qed.
+End MapHeap.
+
+Lemma map_heap_idx_eq f : forall ls h k,
+  map_heap f h ls = map_heap_idx (fun h kc => f h (snd kc)) h k ls.
+Proof.
+  induction ls as [|l r IH]; intros h k; cbn; auto.
+  destruct (f h l) as [h1 l1]. rewrite (IH h1 (S k)). reflexivity.
+Qed.
+
+Lemma map_heap_clus f
+  (Hf : forall h c h' c' ms, clus h c ms -> f h c = (h', c') ->
+                             ext h h' /\ length h <= c' < length h' /\ clus h' c' ms)
+  cs h h' cs' :
+  map_heap f h cs = (h', cs') -> (forall c, In c cs -> isclus h c) ->
+  ext h h' /\ Forall (fun c' => length h <= c' < length h') cs' /\ NoDup cs' /\
+  length cs' = length cs /\
+  Forall2 (fun c c' => forall ms, clus h c ms -> clus h' c' ms) cs cs'.
+Proof.
+  rewrite (map_heap_idx_eq f cs h 0). apply map_heap_idx_clus.
+  - intros h0 [k c] h1 c1 [ms Hc] E. cbn in *. destruct (Hf _ _ _ _ _ Hc E) as (A & B & _). auto.
+  - intros h0 [k c] h1 c1 ms Hc E. cbn in *. destruct (Hf _ _ _ _ _ Hc E) as (A & B & C). auto.
+Qed.
+
+Lemma InvD_copy h h' lab cs cs' :
+  Forall2 (fun c c' => forall ms, clus h c ms -> clus h' c' ms) cs cs' ->
+  (forall l, lab = Some l -> get_list h' l = get_list h l) ->
+  InvD h lab cs -> InvD h' lab cs'.
+Proof.
+  intros F2 Hl. unfold InvD. destruct lab as [l|].
+  - intros H k c' Hk. destruct (F2_nth_r _ _ _ F2 k c' Hk) as [c [Hc HR]].
+    rewrite (Hl l eq_refl). auto.
+  - intros H c' Hc'. destruct (F2_in_r _ _ _ F2 c' Hc') as [c [Hc HR]]. auto.
+Qed.
+
+Lemma isclus_copy h h' cs cs' :
+  Forall2 (fun c c' => forall ms, clus h c ms -> clus h' c' ms) cs cs' ->
+  (forall c, In c cs -> isclus h c) -> forall c', In c' cs' -> isclus h' c'.
+Proof.
+  intros F2 Hcl c' Hc'. destruct (F2_in_r _ _ _ F2 c' Hc') as [c [Hc HR]].
+  destruct (Hcl c Hc) as [ms Hms]. exists ms; auto.
+Qed.
+
+(* ------------------------------------------------------------------ *)
+(* transport of descriptions / invariant                               *)
+(* ------------------------------------------------------------------ *)
+
+Lemma SD_good h s a cl lab cost data K m lam beta cs :
+  SD h s a cl lab cost data K m lam beta cs -> InvD h lab cs -> WF h s /\ Inv h s.
+Proof.
+  intros HSD HI. split.
+  - apply WF_SD. exists a, cl, lab, cost, data, K, m, lam, beta, cs. auto.
+  - apply (Inv_InvD _ _ _ _ _ _ _ _ _ _ _ _ HSD). auto.
+Qed.
+
+Lemma SD_ext h h' s a cl lab cost data K m lam beta cs :
+  ext h h' -> SD h s a cl lab cost data K m lam beta cs ->
+  SD h' s a cl lab cost data K m lam beta cs.
+Proof.
+  intros HE HSD. pose proof HSD as (H1 & H2 & H3 & H4 & H5 & H6 & H7).
+  eapply (SD_modonly _ _ _ _ _ _ _ _ _ _ _ _ HSD []).
+  - apply ext_modonly; eauto.
+  - intros x [].
+  - eapply ext_get; eauto.
+  - intros c Hc. eapply isclus_ext; eauto.
+  - intros l Hl. destruct (H7 l Hl) as [ls Hls]. exists ls. eapply ext_get; eauto.
+Qed.
+
+Lemma InvD_modonly S h h' lab cs :
+  modonly S h h' -> mut h S -> (forall c, In c cs -> ~ In c S) ->
+  (forall l, lab = Some l -> exists ls, get h l = Some (OList ls)) ->
+  InvD h lab cs -> InvD h' lab cs.
+Proof.
+  intros HM HS Hn Hl. unfold InvD. destruct lab as [l|].
+  - destruct (Hl l eq_refl) as [ls Hls].
+    assert (Hls' : get h' l = Some (OList ls)) by (eapply modonly_imm; eauto; cbn; lia).
+    rewrite (get_list_eq _ _ _ Hls), (get_list_eq _ _ _ Hls').
+    intros H k c Hk. eapply clus_modonly; eauto. apply Hn. eapply nth_error_In; eauto.
+  - intros H c Hc. eapply clus_modonly; eauto.
+Qed.
+
+Lemma InvD_ext h h' lab cs :
+  ext h h' -> (forall l, lab = Some l -> exists ls, get h l = Some (OList ls)) ->
+  InvD h lab cs -> InvD h' lab cs.
+Proof.
+  intros HE Hl. apply (InvD_modonly [] h h'); auto.
+  - apply ext_modonly; auto.
+  - intros x [].
+Qed.
+
+Lemma SD_lab h s a cl lab cost data K m lam beta cs :
+  SD h s a cl lab cost data K m lam beta cs ->
+  forall l, lab = Some l -> exists ls, get h l = Some (OList ls).
+Proof. intros (_ & _ & _ & _ & _ & _ & H7). exact H7. Qed.
+
+Lemma SD_isclus h s a cl lab cost data K m lam beta cs :
+  SD h s a cl lab cost data K m lam beta cs -> forall c, In c cs -> isclus h c.
+Proof. intros (_ & _ & _ & _ & _ & H6 & _). exact H6. Qed.
+
+(* ------------------------------------------------------------------ *)
+(* state-level helpers                                                 *)
+(* ------------------------------------------------------------------ *)
+
+Lemma state_shallow_copy_eq h s a cl lab cost data K m lam beta cs :
+  SD h s a cl lab cost data K m lam beta cs ->
+  state_shallow_copy h s = (h ++ [ORefs cs; OState a (length h) lab cost data], S (length h)).
+Proof.
+  intros HSD. pose proof (SD_refs _ _ _ _ _ _ _ _ _ _ _ _ HSD) as Hr.
+  destruct HSD as (H1 & _). unfold state_shallow_copy. rewrite H1, Hr.
+  unfold alloc. rewrite <- app_assoc, app_length. cbn [app length].
+  rewrite Nat.add_1_r. reflexivity.
+Qed.
+
+Lemma shallow_SD h s a cl lab cost data K m lam beta cs h' s' :
+  SD h s a cl lab cost data K m lam beta cs -> state_shallow_copy h s = (h', s') ->
+  ext h h' /\ s' = S (length h) /\ length h' = length h + 2 /\
+  SD h' s' a (length h) lab cost data K m lam beta cs /\
+  (InvD h lab cs -> InvD h' lab cs).
+Proof.
+  intros HSD E. rewrite (state_shallow_copy_eq _ _ _ _ _ _ _ _ _ _ _ _ HSD) in E.
+  inversion E; subst. clear E.
+  assert (HE : ext h (h ++ [ORefs cs; OState a (length h) lab cost data])) by apply ext_app.
+  pose proof (SD_lab _ _ _ _ _ _ _ _ _ _ _ _ HSD) as Hlab.
+  destruct HSD as (H1 & H2 & H3 & H4 & H5 & H6 & H7).
+  split; auto. split; auto. split; [rewrite app_length; cbn; lia|]. split.
+  - repeat split; auto.
+    + apply get_app_new2.
+    + eapply ext_get; eauto.
+    + apply get_app_new.
+    + intros c Hc. eapply isclus_ext; eauto.
+    + intros l Hl. destruct (H7 l Hl) as [ls Hls]. exists ls. eapply ext_get; eauto.
+  - apply InvD_ext; auto.
+Qed.
+
+Lemma set_clusters_SD h s a cl lab cost data K m lam beta cs' :
+  get h s = Some (OState a cl lab cost data) -> get h a = Some (OArgs K m lam beta) ->
+  length cs' = K -> NoDup cs' -> (forall c, In c cs' -> isclus h c) ->
+  (forall l, lab = Some l -> exists ls, get h l = Some (OList ls)) ->
+  modonly [s] h (set_clusters h s cs') /\ mut h [s] /\
+  SD (set_clusters h s cs') s a (length h) lab cost data K m lam beta cs'.
+Proof.
+  intros Hs Ha HK Hnd Hcl Hl. unfold set_clusters. rewrite Hs. unfold alloc. cbv beta iota.
+  destruct (alloc_upd h s (ORefs cs') (OState a (length h) lab cost data) (get_lt _ _ _ Hs))
+    as (A & B & C).
+  assert (Hmut : mut h [s]).
+  { intros x [<-|[]]. eexists; split; [exact Hs|cbn; lia]. }
+  split; auto. split; auto.
+  repeat split; auto.
+  - eapply modonly_imm; eauto; cbn; lia.
+  - intros c Hc. eapply isclus_modonly; eauto.
+    intros [<-|[]]. destruct (Hcl s Hc) as (ms & mem & ec & mean & ti & cc & ic & ld & X & _).
+    congruence.
+  - intros l E. destruct (Hl l E) as [ls Hls]. exists ls. eapply modonly_imm; eauto; cbn; lia.
+Qed.
+
+Lemma state_not_clus h s a cl lab cost data cs :
+  get h s = Some (OState a cl lab cost data) -> (forall c, In c cs -> isclus h c) ->
+  forall c, In c cs -> ~ In c [s].
+Proof.
+  intros Hs Hcl c Hc [<-|[]].
+  destruct (Hcl s Hc) as (ms & mem & ec & mean & ti & cc & ic & ld & X & _). congruence.
+Qed.
+
+Lemma set_cost_SD h s a cl lab cost data K m lam beta cs c :
+  SD h s a cl lab cost data K m lam beta cs ->
+  SD (set_cost h s c) s a cl lab (Some c) data K m lam beta cs /\
+  modonly [s] h (set_cost h s c) /\
+  (InvD h lab cs -> InvD (set_cost h s c) lab cs).
+Proof.
+  intros HSD. pose proof HSD as (H1 & H2 & H3 & H4 & H5 & H6 & H7).
+  unfold set_cost. rewrite H1.
+  assert (HM : modonly [s] h (upd h s (OState a cl lab (Some c) data))) by apply modonly_upd.
+  assert (Hmut : mut h [s]).
+  { intros x [<-|[]]. eexists; split; [exact H1|cbn; lia]. }
+  pose proof (state_not_clus _ _ _ _ _ _ _ _ H1 H6) as Hn.
+  split; [|split]; auto.
+  - eapply SD_modonly; eauto.
+    + apply get_upd_same. eapply get_lt; eauto.
+    + intros x Hx. eapply isclus_modonly; eauto.
+    + intros l E. destruct (H7 l E) as [ls Hls]. exists ls. eapply modonly_imm; eauto; cbn; lia.
+  - eapply InvD_modonly; eauto.
+Qed.
+
+Lemma empty_clusters_spec : forall K h h' cs,
+  empty_clusters h K = (h', cs) ->
+  ext h h' /\ length cs = K /\ NoDup cs /\ Forall (fun c => length h <= c < length h') cs /\
+  forall c, In c cs -> clus h' c [].
+Proof.
+  induction K as [|K IH]; intros h h' cs E; cbn [empty_clusters] in E.
+  - inversion E; subst. split; [apply ext_refl|]. repeat split; try constructor. intros c [].
+  - destruct (new_cluster h [] None None None None None None) as [h1 c1] eqn:E1.
+    destruct (empty_clusters h1 K) as [h2 r] eqn:E2. inversion E; subst. clear E.
+    apply new_cluster_spec in E1. destruct E1 as (X1 & B1 & G1 & G2 & L1).
+    destruct (IH _ _ _ E2) as (X2 & Hlen & ND & FA & HC).
+    pose proof (ext_len _ _ X2) as L2.
+    split; [eapply ext_trans; eauto|]. split; [cbn; lia|]. split; [|split].
+    + constructor; auto. intros Hin. rewrite Forall_forall in FA. specialize (FA _ Hin). lia.
+    + constructor; [lia|]. eapply Forall_impl; [|exact FA]. cbn beta. intros; lia.
+    + intros c [<-|Hc]; auto.
+      eapply clus_ext; eauto. exists (length h), None, None, None, None, None, None. auto.
+Qed.
+
+Lemma empty_model_good h a K m lam beta data h' s' :
+  get h a = Some (OArgs K m lam beta) -> empty_model h a K data = (h', s') ->
+  exists cl cs, SD h' s' a cl None None data K m lam beta cs /\ InvD h' None cs.
+Proof.
+  intros Ha. unfold empty_model.
+  destruct (empty_clusters h K) as [h1 cs] eqn:E1. unfold alloc. cbv beta iota.
+  intros E. inversion E; subst. clear E.
+  destruct (empty_clusters_spec _ _ _ _ E1) as (X1 & Hlen & ND & FA & HC).
+  exists (length h1), cs.
+  assert (X2 : ext h1 ((h1 ++ [ORefs cs]) ++ [OState a (length h1) None None data])).
+  { eapply ext_trans; apply ext_app. }
+  split.
+  - repeat split; auto.
+    + apply get_app_new.
+    + eapply ext_get; [|exact Ha]. eapply ext_trans; eauto.
+    + rewrite get_app_old by (rewrite app_length; cbn; lia). apply get_app_new.
+    + intros c Hc. exists []. eapply clus_ext; eauto.
+    + intros l Hl; discriminate.
+  - intros c Hc. eapply clus_ext; eauto.
+Qed.
+
+(* (T1) *)
+Theorem init_wf_inv K m la ba : let '(h, s) := init K m la ba in WF h s /\ Inv h s.
+Proof.
+  destruct (init K m la ba) as [h s] eqn:E.
+  unfold init, alloc in E.
+  destruct la, ba; cbv beta iota in E; cbn [app length] in E;
+    (eapply empty_model_good in E; [|reflexivity]);
+    destruct E as (cl & cs & HSD & HI); eapply SD_good; eauto.
+Qed.
+
+(* ------------------------------------------------------------------ *)
+(* the phases                                                          *)
+(* ------------------------------------------------------------------ *)
+
+Lemma ext_modonly_fresh F h h2 h3 :
+  ext h h2 -> modonly F h2 h3 -> Forall (fun x => length h <= x) F -> ext h h3.
+Proof.
+  intros [L1 G1] [L2 G2] HF. split; [lia|]. intros l Hl.
+  rewrite G2; auto; [lia|]. intros Hin. rewrite Forall_forall in HF. specialize (HF l Hin). lia.
+Qed.
+
+Lemma get_list_ext h h' l ls : ext h h' -> get h l = Some (OList ls) -> get_list h' l = get_list h l.
+Proof.
+  intros HE Hl. rewrite (get_list_eq _ _ _ Hl). apply get_list_eq. eapply ext_get; eauto.
+Qed.
+
+Lemma lab_get_list_ext h h' (lab : option loc) :
+  ext h h' -> (forall l, lab = Some l -> exists ls, get h l = Some (OList ls)) ->
+  forall l, lab = Some l -> get_list h' l = get_list h l.
+Proof. intros HE H l Hl. destruct (H l Hl) as [ls Hls]. eapply get_list_ext; eauto. Qed.
+
+(* shallow copy of the state + deep copies of the clusters + rebind (repopulate, relabel) *)
+Lemma fork_SD h s a cl lab cost data K m lam beta cs h1 s1 h2 cs' :
+  SD h s a cl lab cost data K m lam beta cs ->
+  state_shallow_copy h s = (h1, s1) ->
+  map_heap cluster_deep_copy h1 cs = (h2, cs') ->
+  exists cl', SD (set_clusters h2 s1 cs') s1 a cl' lab cost data K m lam beta cs' /\
+    ext h (set_clusters h2 s1 cs') /\ length h <= s1 /\ Forall (fun c => length h <= c) cs' /\
+    (InvD h lab cs -> InvD (set_clusters h2 s1 cs') lab cs').
+Proof.
+  intros HSD E1 E2.
+  destruct (shallow_SD _ _ _ _ _ _ _ _ _ _ _ _ _ _ HSD E1) as (X1 & Hs1 & L1 & SD1 & I1).
+  destruct (map_heap_clus cluster_deep_copy cluster_deep_copy_clus cs h1 h2 cs' E2
+              (SD_isclus _ _ _ _ _ _ _ _ _ _ _ _ SD1)) as (X2 & FA & ND & Hlen & F2).
+  pose proof (SD_ext _ _ _ _ _ _ _ _ _ _ _ _ _ X2 SD1) as SD2.
+  pose proof SD2 as (A1 & A2 & A3 & A4 & A5 & A6 & A7).
+  assert (Hcl' : forall c, In c cs' -> isclus h2 c).
+  { eapply isclus_copy; eauto. eapply SD_isclus; eauto. }
+  destruct (set_clusters_SD h2 s1 a (length h) lab cost data K m lam beta cs' A1 A2
+              ltac:(lia) ND Hcl' A7) as (HM & Hmut & SD3).
+  exists (length h2). split; auto.
+  assert (HFs : Forall (fun x => length h <= x) [s1]) by (constructor; [lia|constructor]).
+  split; [|split; [lia|split]].
+  - eapply ext_modonly_fresh; [|exact HM|exact HFs]. eapply ext_trans; eauto.
+  - eapply Forall_impl; [|exact FA]. cbn beta. intros x Hx. destruct X1. lia.
+  - intros I0. apply I1 in I0.
+    eapply (InvD_modonly [s1] h2); eauto.
+    + eapply state_not_clus; eauto.
+    + eapply InvD_copy; eauto. eapply lab_get_list_ext; eauto. eapply SD_lab; eauto.
+Qed.
+
+Lemma refill_state_cons h s m rem e order' draws :
+  refill_state h s m rem (e :: order') draws =
+  match find_donor (S (length rem)) m (match state_labels h s with Some l => l | None => [] end) rem with
+  | None => None
+  | Some (d, rem') =>
+    refill_state (set_labels (h ++ [OList (move (match state_labels h s with Some l => l | None => [] end)
+                                                d e (hd [] draws))]) s (length h))
+                 s m rem' order' (tl draws)
+  end.
+Proof. reflexivity. Qed.
+
+Lemma setlabels_fresh_SD h s a cl lab cost data K m lam beta cs ls :
+  SD h s a cl lab cost data K m lam beta cs ->
+  exists lab', SD (set_labels (h ++ [OList ls]) s (length h)) s a cl lab' cost data K m lam beta cs /\
+    modonly (s :: cs) h (set_labels (h ++ [OList ls]) s (length h)) /\
+    (exists l', lab' = Some l' /\ get (set_labels (h ++ [OList ls]) s (length h)) l' = Some (OList ls)) /\
+    (InvD h lab cs -> InvD (set_labels (h ++ [OList ls]) s (length h)) lab' cs).
+Proof.
+  intros HSD.
+  assert (X : ext h (h ++ [OList ls])) by apply ext_app.
+  pose proof (SD_ext _ _ _ _ _ _ _ _ _ _ _ _ _ X HSD) as SD1.
+  destruct (set_labels_SD _ _ _ _ _ _ _ _ _ _ _ _ (length h) ls SD1 (get_app_new _ _ _))
+    as (lab' & SD2 & HM & HL & I2).
+  exists lab'. split; auto. split; [|split; auto].
+  - eapply modonly_trans; [apply ext_modonly; exact X|exact HM].
+  - intros I0. apply I2. eapply InvD_ext; eauto. eapply SD_lab; eauto.
+Qed.
+
+Lemma refill_state_SD s a cl cost data K m lam beta cs m' : forall order h rem draws h' lab,
+  SD h s a cl lab cost data K m lam beta cs ->
+  refill_state h s m' rem order draws = Some h' ->
+  exists lab', SD h' s a cl lab' cost data K m lam beta cs /\ modonly (s :: cs) h h' /\
+               (InvD h lab cs -> InvD h' lab' cs).
+Proof.
+  induction order as [|e order' IH]; intros h rem draws h' lab HSD E.
+  - cbn in E. inversion E; subst. exists lab. split; auto. split; auto. apply modonly_refl.
+  - rewrite refill_state_cons in E.
+    destruct (find_donor _ _ _ _) as [[d rem']|]; [|discriminate].
+    set (ls := move _ d e _) in E.
+    destruct (setlabels_fresh_SD _ _ _ _ _ _ _ _ _ _ _ _ ls HSD) as (lab1 & SD1 & HM1 & _ & I1).
+    destruct (IH _ _ _ _ _ SD1 E) as (lab' & SD' & HM' & I').
+    exists lab'. split; auto. split; auto. eapply modonly_trans; eauto.
+Qed.
+
+Lemma repopulate_SD h s a cl lab cost data K m lam beta cs spread order draws h' s' :
+  SD h s a cl lab cost data K m lam beta cs ->
+  phase_repopulate h s spread order draws = Some (h', s') ->
+  exists cl' lab' cs', SD h' s' a cl' lab' cost data K m lam beta cs' /\ ext h h' /\
+                       (InvD h lab cs -> InvD h' lab' cs').
+Proof.
+  intros HSD. unfold phase_repopulate. destruct order as [|e order'].
+  - intros E. inversion E; subst. exists cl, lab, cs. split; auto. split; auto. apply ext_refl.
+  - rewrite (SD_clusters _ _ _ _ _ _ _ _ _ _ _ _ HSD).
+    destruct (state_shallow_copy h s) as [h1 s1] eqn:E1.
+    destruct (map_heap cluster_deep_copy h1 cs) as [h2 cs'] eqn:E2.
+    cbv zeta.
+    destruct (fork_SD _ _ _ _ _ _ _ _ _ _ _ _ _ _ _ _ HSD E1 E2) as (cl' & SD3 & X3 & Ls1 & Fcs & I3).
+    set (h3 := set_clusters h2 s1 cs') in *.
+    destruct (refill_state h3 s1 _ _ _ _) as [h4|] eqn:ER; [|discriminate].
+    intros E. inversion E; subst. clear E.
+    destruct (refill_state_SD _ _ _ _ _ _ _ _ _ _ _ _ _ _ _ _ _ SD3 ER) as (lab' & SD4 & HM4 & I4).
+    exists cl', lab', cs'. split; auto. split; auto.
+    eapply ext_modonly_fresh; eauto.
+Qed.
+
+Lemma clus_upd_refs h x r r' c ms :
+  get h x = Some (ORefs r) -> clus h c ms -> clus (upd h x (ORefs r')) c ms.
+Proof.
+  intros Hx (mem & ec & mean & ti & cc & ic & ld & Hc & Hm).
+  exists mem, ec, mean, ti, cc, ic, ld. split; rewrite get_upd_other; auto; congruence.
+Qed.
+
+Lemma InvD_upd_refs h x r r' lab cs :
+  get h x = Some (ORefs r) ->
+  (forall l, lab = Some l -> exists ls, get h l = Some (OList ls)) ->
+  InvD h lab cs -> InvD (upd h x (ORefs r')) lab cs.
+Proof.
+  intros Hx Hl. unfold InvD. destruct lab as [l|].
+  - destruct (Hl l eq_refl) as [ls Hls].
+    assert (E : get_list (upd h x (ORefs r')) l = get_list h l).
+    { unfold get_list. rewrite get_upd_other; auto. congruence. }
+    rewrite E. intros H k c Hk. eapply clus_upd_refs; eauto.
+  - intros H c Hc. eapply clus_upd_refs; eauto.
+Qed.
+
+Lemma statistics_SD h s a cl lab cost data K m lam beta cs b h' s' :
+  SD h s a cl lab cost data K m lam beta cs ->
+  phase_statistics h s b = Some (h', s') ->
+  exists cl' cs', SD h' s' a cl' lab cost data K m lam beta cs' /\ ext h h' /\
+                  (InvD h lab cs -> InvD h' lab cs').
+Proof.
+  intros HSD. unfold phase_statistics.
+  rewrite (SD_clusters _ _ _ _ _ _ _ _ _ _ _ _ HSD), (SD_K _ _ _ _ _ _ _ _ _ _ _ _ HSD),
+          (SD_firstn _ _ _ _ _ _ _ _ _ _ _ _ HSD), (SD_skipn _ _ _ _ _ _ _ _ _ _ _ _ HSD).
+  destruct (forallb _ cs); [|discriminate].
+  destruct (state_shallow_copy h s) as [h1 s1] eqn:E1.
+  destruct (map_heap (stat_cluster b) h1 cs) as [h2 cs'] eqn:E2.
+  destruct (shallow_SD _ _ _ _ _ _ _ _ _ _ _ _ _ _ HSD E1) as (X1 & Hs1 & L1 & SD1 & I1).
+  destruct (map_heap_clus (stat_cluster b) (stat_cluster_clus b) cs h1 h2 cs' E2
+              (SD_isclus _ _ _ _ _ _ _ _ _ _ _ _ SD1)) as (X2 & FA & ND & Hlen & F2).
+  pose proof (SD_ext _ _ _ _ _ _ _ _ _ _ _ _ _ X2 SD1) as SD2.
+  pose proof SD2 as (A1 & A2 & A3 & A4 & A5 & A6 & A7).
+  rewrite A1. rewrite app_nil_r. intros E. inversion E; subst h' s'. clear E.
+  pose proof (ext_len _ _ X2) as L2.
+  pose proof (get_lt _ _ _ (proj1 (proj2 HSD))) as La.
+  assert (Hcl' : forall c, In c cs' -> isclus h2 c).
+  { eapply isclus_copy; eauto. eapply SD_isclus; eauto. }
+  exists (length h), cs'. split; [|split].
+  - repeat split; auto.
+    + rewrite get_upd_other by lia. auto.
+    + rewrite get_upd_other by lia. auto.
+    + apply get_upd_same. lia.
+    + lia.
+    + intros c Hc. destruct (Hcl' c Hc) as [ms Hms]. exists ms. eapply clus_upd_refs; eauto.
+    + intros l Hl. destruct (A7 l Hl) as [ls Hls]. exists ls.
+      rewrite get_upd_other; auto. congruence.
+  - apply ext_upd_fresh; [eapply ext_trans; eauto|lia].
+  - intros I0. eapply InvD_upd_refs; eauto.
+    eapply InvD_copy; eauto.
+    eapply lab_get_list_ext; eauto. eapply SD_lab; eauto.
+Qed.
+
+Lemma optimise_SD h s a cl lab cost data K m lam beta cs mrf h' s' :
+  SD h s a cl lab cost data K m lam beta cs ->
+  phase_optimise h s mrf = (h', s') ->
+  exists cl' cs', SD h' s' a cl' lab cost data K m lam beta cs' /\ ext h h' /\
+                  (InvD h lab cs -> InvD h' lab cs').
+Proof.
+  intros HSD. unfold phase_optimise.
+  rewrite (SD_clusters _ _ _ _ _ _ _ _ _ _ _ _ HSD).
+  destruct (map_heap_idx (opt_cluster mrf) h 0 cs) as [h1 cs'] eqn:E1.
+  destruct (state_shallow_copy h1 s) as [h2 s1] eqn:E2.
+  intros E. inversion E; subst h' s'. clear E.
+  assert (Hf : forall h kc h' c', isclus h (snd kc) -> opt_cluster mrf h kc = (h', c') ->
+                                  ext h h' /\ length h <= c' < length h').
+  { intros h0 [k c] h0' c' [ms Hc] E. cbn in Hc.
+    destruct (opt_cluster_clus _ _ _ _ _ _ _ Hc E) as (A & B & _). auto. }
+  assert (Hf2 : forall h kc h' c' ms, clus h (snd kc) ms -> opt_cluster mrf h kc = (h', c') ->
+                                      clus h' c' ms).
+  { intros h0 [k c] h0' c' ms Hc E. cbn in Hc.
+    destruct (opt_cluster_clus _ _ _ _ _ _ _ Hc E) as (A & B & C). auto. }
+  destruct (map_heap_idx_clus _ Hf Hf2 cs h 0 h1 cs' E1 (SD_isclus _ _ _ _ _ _ _ _ _ _ _ _ HSD))
+    as (X1 & FA & ND & Hlen & F2).
+  pose proof (SD_ext _ _ _ _ _ _ _ _ _ _ _ _ _ X1 HSD) as SD1.
+  destruct (shallow_SD _ _ _ _ _ _ _ _ _ _ _ _ _ _ SD1 E2) as (X2 & Hs1 & L2 & SD2 & I2).
+  pose proof SD2 as (A1 & A2 & A3 & A4 & A5 & A6 & A7).
+  assert (Hcl' : forall c, In c cs' -> isclus h2 c).
+  { intros c Hc. eapply isclus_ext; eauto. eapply isclus_copy; eauto. eapply SD_isclus; eauto. }
+  destruct (set_clusters_SD h2 s1 a (length h1) lab cost data K m lam beta cs' A1 A2
+              ltac:(lia) ND Hcl' A7) as (HM & Hmut & SD3).
+  pose proof (ext_len _ _ X1) as L1.
+  exists (length h2), cs'. split; auto. split.
+  - eapply ext_modonly_fresh; [|exact HM|]; [eapply ext_trans; eauto|].
+    constructor; [lia|constructor].
+  - intros I0. eapply (InvD_modonly [s1] h2); eauto.
+    + eapply state_not_clus; eauto.
+    + eapply InvD_ext; eauto.
+      * intros l Hl. destruct (SD_lab _ _ _ _ _ _ _ _ _ _ _ _ SD1 l Hl) as [ls Hls]. eauto.
+      * eapply InvD_copy; eauto. eapply lab_get_list_ext; eauto. eapply SD_lab; eauto.
+Qed.
+
+(* ---------- relabel ---------- *)
+Definition cw_ld (h : heap) (ti : option loc) : option (list nat) :=
+  match ti with
+  | Some t => match get h t with Some (OArr (_ :: x)) => Some (5 :: x) | _ => Some [5] end
+  | None => Some [5]
+  end.
+
+Lemma cache_write_cons h c r :
+  cache_write h (c :: r) =
+  match get h c with
+  | Some (OCluster ml ec mean ti cc _ _) =>
+      cache_write (upd h c (OCluster ml ec mean ti cc ti (cw_ld h ti))) r
+  | _ => cache_write h r
+  end.
+Proof. reflexivity. Qed.
+
+Lemma cache_write_clus : forall cs h x ms, clus h x ms -> clus (cache_write h cs) x ms.
+Proof.
+  induction cs as [|c r IH]; intros h x ms Hx; auto.
+  rewrite cache_write_cons.
+  destruct (get h c) as [[| | | |ml ec mean ti cc ic ld|]|] eqn:E; auto.
+  apply IH. eapply upd_cluster_clus; eauto.
+Qed.
+
+Lemma cache_write_frame : forall cs h,
+  length (cache_write h cs) = length h /\
+  (forall l, ~ In l cs -> get (cache_write h cs) l = get h l) /\
+  (forall l, In l cs -> forall mem ec mean ti cc ic ld,
+      get h l = Some (OCluster mem ec mean ti cc ic ld) ->
+      exists ld', get (cache_write h cs) l = Some (OCluster mem ec mean ti cc ti ld')).
+Proof.
+  induction cs as [|c r IH]; intros h.
+  - cbn. split; auto. split; auto. intros l [].
+  - rewrite cache_write_cons.
+    assert (Hskip : (forall ml ec mean ti cc ic ld, get h c <> Some (OCluster ml ec mean ti cc ic ld)) ->
+      length (cache_write h r) = length h /\
+      (forall l, ~ In l (c :: r) -> get (cache_write h r) l = get h l) /\
+      (forall l, In l (c :: r) -> forall mem ec mean ti cc ic ld,
+        get h l = Some (OCluster mem ec mean ti cc ic ld) ->
+        exists ld', get (cache_write h r) l = Some (OCluster mem ec mean ti cc ti ld'))).
+    { intros Hne. destruct (IH h) as (A & B & C). split; [exact A|split].
+      - intros l Hn. apply B. intros Hin. apply Hn. right; auto.
+      - intros l [El|Hl] mem ec mean ti cc ic ld Hg.
+        + subst l. exfalso. eapply Hne; eauto.
+        + eapply C; eauto. }
+    destruct (get h c) as [[| | | |ml ec0 mean0 ti0 cc0 ic0 ld0|]|] eqn:E;
+      try (apply Hskip; intros; discriminate).
+    set (h1 := upd h c (OCluster ml ec0 mean0 ti0 cc0 ti0 (cw_ld h ti0))).
+    assert (Hc1 : get h1 c = Some (OCluster ml ec0 mean0 ti0 cc0 ti0 (cw_ld h ti0))).
+    { apply get_upd_same. eapply get_lt; eauto. }
+    destruct (IH h1) as (A & B & C).
+    split; [rewrite A; apply length_upd|]. split.
+    + intros l Hn. rewrite B by (intros Hin; apply Hn; right; auto).
+      apply get_upd_other. intros ->. apply Hn; left; auto.
+    + intros l Hl mem ec mean ti cc ic ld Hg.
+      destruct (Nat.eq_dec l c) as [->|Hlc].
+      * rewrite E in Hg. inversion Hg; subst.
+        destruct (in_dec Nat.eq_dec c r) as [Hin|Hnin].
+        -- eapply C; eauto.
+        -- rewrite B by auto. eauto.
+      * destruct Hl as [->|Hl]; [congruence|].
+        apply (C l Hl mem ec mean ti cc ic ld). unfold h1. rewrite get_upd_other; auto.
+Qed.
+
+Lemma cache_write_SD h s a cl lab cost data K m lam beta cs :
+  SD h s a cl lab cost data K m lam beta cs ->
+  SD (cache_write h cs) s a cl lab cost data K m lam beta cs /\
+  (InvD h lab cs -> InvD (cache_write h cs) lab cs).
+Proof.
+  intros HSD. pose proof HSD as (H1 & H2 & H3 & H4 & H5 & H6 & H7).
+  destruct (cache_write_frame cs h) as (A & B & _).
+  assert (HM : modonly cs h (cache_write h cs)).
+  { split; [lia|]. intros l _ Hn. auto. }
+  assert (Hmut : mut h cs) by (apply isclus_mut; auto).
+  assert (Hl : forall l, lab = Some l -> get_list (cache_write h cs) l = get_list h l).
+  { intros l E. destruct (H7 l E) as [ls Hls]. rewrite (get_list_eq _ _ _ Hls).
+    apply get_list_eq. eapply modonly_imm; eauto; cbn; lia. }
+  split.
+  - eapply SD_modonly; eauto.
+    + rewrite B; auto. eapply SD_s_notin; eauto.
+    + intros c Hc. destruct (H6 c Hc) as [ms Hms]. exists ms. apply cache_write_clus; auto.
+    + intros l E. destruct (H7 l E) as [ls Hls]. exists ls. eapply modonly_imm; eauto; cbn; lia.
+  - unfold InvD. destruct lab as [l|].
+    + rewrite (Hl l eq_refl). intros H k c Hk. apply cache_write_clus; auto.
+    + intros H c Hc. apply cache_write_clus; auto.
+Qed.
+
+Lemma relabel_SD h s a cl lab cost data K m lam beta cs ls c h' s' :
+  SD h s a cl lab cost data K m lam beta cs ->
+  phase_relabel h s ls c = (h', s') ->
+  exists cl' lab' cs', SD h' s' a cl' lab' (Some c) data K m lam beta cs' /\
+                       ext (cache_write h cs) h' /\
+                       (InvD h lab cs -> InvD h' lab' cs').
+Proof.
+  intros HSD. unfold phase_relabel.
+  rewrite (SD_clusters _ _ _ _ _ _ _ _ _ _ _ _ HSD), (SD_K _ _ _ _ _ _ _ _ _ _ _ _ HSD),
+          (SD_firstn _ _ _ _ _ _ _ _ _ _ _ _ HSD).
+  cbv zeta.
+  destruct (cache_write_SD _ _ _ _ _ _ _ _ _ _ _ _ HSD) as [SD0 I0].
+  set (h0 := cache_write h cs) in *.
+  rewrite (SD_clusters _ _ _ _ _ _ _ _ _ _ _ _ SD0).
+  destruct (state_shallow_copy h0 s) as [h1 s1] eqn:E1.
+  destruct (map_heap cluster_deep_copy h1 cs) as [h2 cs'] eqn:E2.
+  destruct (fork_SD _ _ _ _ _ _ _ _ _ _ _ _ _ _ _ _ SD0 E1 E2) as (cl' & SD3 & X3 & Ls1 & Fcs & I3).
+  set (h3 := set_clusters h2 s1 cs') in *.
+  unfold alloc. cbv beta iota.
+  destruct (setlabels_fresh_SD _ _ _ _ _ _ _ _ _ _ _ _ ls SD3) as (lab' & SD5 & HM5 & _ & I5).
+  set (h5 := set_labels (h3 ++ [OList ls]) s1 (length h3)) in *.
+  destruct (set_cost_SD _ _ _ _ _ _ _ _ _ _ _ _ c SD5) as (SD6 & HM6 & I6).
+  intros E. inversion E; subst h' s'. clear E.
+  exists cl', lab', cs'. split; auto. split; auto.
+  eapply ext_modonly_fresh; [exact X3| |constructor; [exact Ls1|exact Fcs]].
+  eapply modonly_trans; [exact HM5|].
+  eapply modonly_incl; [|exact HM6]. intros x [<-|[]]. left; auto.
+Qed.
+
+(* ---------- deep copy ---------- *)
+Definition cp_arr (h : heap) (x : option loc) : heap * option loc :=
+  match x with
+  | Some l => match get h l with
+              | Some (OArr c) => let '(h1, l1) := alloc h (OArr c) in (h1, Some l1)
+              | _ => (h, x)
+              end
+  | None => (h, None)
+  end.
+
+Lemma args_deep_copy_eq h a :
+  args_deep_copy h a =
+  match get h a with
+  | Some (OArgs K m lam beta) =>
+    let '(h1, lam') := cp_arr h lam in
+    let '(h2, beta') := cp_arr h1 beta in
+    alloc h2 (OArgs K m lam' beta')
+  | _ => (h, a)
+  end.
+Proof. reflexivity. Qed.
+
+Definition fr2 (h : heap) (x x' : option loc) : Prop :=
+  oarr h x -> forall l, x' = Some l -> length h <= l.
+
+Lemma cp_arr_spec h x h' x' :
+  cp_arr h x = (h', x') -> ext h h' /\ fr2 h x x'.
+Proof.
+  unfold cp_arr, alloc, fr2. destruct x as [l|].
+  - destruct (get h l) as [[| c | | | |]|] eqn:E; intros Eq; inversion Eq; subst;
+      (split; [try apply ext_refl; try apply ext_app|]); intros Ha l0 El0;
+      destruct (Ha l eq_refl) as [c' Hc']; try congruence.
+    inversion El0; subst. auto.
+  - intros Eq; inversion Eq; subst. split; [apply ext_refl|]. intros _ l0 El0. discriminate.
+Qed.
+
+Lemma fr2_mono h0 h x x' : ext h0 h -> fr2 h x x' -> fr2 h0 x x'.
+Proof.
+  intros E0 H Hx l Hl. pose proof (H (oarr_ext _ _ _ E0 Hx) l Hl). destruct E0. lia.
+Qed.
+
+Lemma args_deep_copy_spec h a K m lam beta h' a' :
+  get h a = Some (OArgs K m lam beta) -> args_deep_copy h a = (h', a') ->
+  ext h h' /\ length h <= a' < length h' /\
+  exists lam' beta', get h' a' = Some (OArgs K m lam' beta') /\ fr2 h lam lam' /\ fr2 h beta beta'.
+Proof.
+  intros Ha. rewrite args_deep_copy_eq, Ha.
+  destruct (cp_arr h lam) as [h1 lam'] eqn:E1.
+  destruct (cp_arr h1 beta) as [h2 beta'] eqn:E2.
+  unfold alloc. intros E. inversion E; subst. clear E.
+  apply cp_arr_spec in E1, E2. destruct E1 as [X1 F1], E2 as [X2 F2].
+  pose proof (ext_len _ _ X1). pose proof (ext_len _ _ X2).
+  split; [eapply ext_trans; [exact X1|]; eapply ext_trans; [exact X2|apply ext_app]|].
+  split; [rewrite app_length; cbn; lia|].
+  exists lam', beta'. split; [apply get_app_new|]. split; auto.
+  eapply fr2_mono; eauto.
+Qed.
+
+Lemma deep_full h s a cl lb cost data K m lam beta cs h' s' :
+  SD h s a cl (Some lb) cost data K m lam beta cs ->
+  state_deep_copy h s = (h', s') ->
+  exists a' cl' lab' data' lam' beta' cs',
+    SD h' s' a' cl' (Some lab') cost data' K m lam' beta' cs' /\ ext h h' /\
+    get_list h' lab' = get_list h lb /\
+    Forall2 (fun c c' => forall ms, clus h c ms -> clus h' c' ms) cs cs' /\
+    length h <= s' /\ length h <= a' /\ length h <= cl' /\ length h <= lab' /\
+    fr2 h lam lam' /\ fr2 h beta beta' /\
+    ((exists c, get h data = Some (OArr c)) -> length h <= data') /\
+    Forall2 (fun c c' => exists ha hb, ext h ha /\ ext hb h' /\ cluster_deep_copy ha c = (hb, c')) cs cs'.
+Proof.
+  intros HSD. pose proof HSD as (H1 & H2 & H3 & H4 & H5 & H6 & H7).
+  unfold state_deep_copy. rewrite H1, (SD_refs _ _ _ _ _ _ _ _ _ _ _ _ HSD).
+  destruct (map_heap cluster_deep_copy h cs) as [h1 cs'] eqn:E1.
+  destruct (args_deep_copy h1 a) as [h2 a'] eqn:E2.
+  unfold alloc at 1. cbv beta iota.
+  destruct (copy_arr (h2 ++ [OList (get_list h lb)]) (Some data)) as [h4 data'] eqn:E4.
+  unfold alloc. cbv beta iota. intros E. inversion E; subst h' s'. clear E.
+  destruct (map_heap_clus cluster_deep_copy cluster_deep_copy_clus cs h h1 cs' E1 H6)
+    as (X1 & FA & ND & Hlen & F2).
+  assert (F2' : Forall2 (fun c c' => exists ha hb, ext h ha /\ ext hb h1 /\
+                                      cluster_deep_copy ha c = (hb, c')) cs cs').
+  { rewrite (map_heap_idx_eq cluster_deep_copy cs h 0) in E1.
+    eapply map_heap_idx_spec in E1; auto.
+    - destruct E1 as (_ & _ & _ & F). eapply F2_imp; [|exact F]. cbn beta.
+      intros x y (ha & hb & k' & A & B & C). exists ha, hb. auto.
+    - intros h0 [k c] h0' c' [ms Hc] E. cbn in *.
+      destruct (cluster_deep_copy_clus _ _ _ _ _ Hc E) as (A & B & _). auto. }
+  destruct (args_deep_copy_spec _ _ _ _ _ _ _ _ (ext_get _ _ _ _ X1 H2) E2)
+    as (X2 & Ba & lam' & beta' & Ha' & Fl & Fb).
+  set (h3 := h2 ++ [OList (get_list h lb)]) in *.
+  assert (X3 : ext h2 h3) by apply ext_app.
+  destruct (copy_arr_spec _ _ _ _ E4) as [X4 F4].
+  set (d' := match data' with Some d => d | None => data end).
+  set (h5 := h4 ++ [ORefs cs']).
+  set (h6 := h5 ++ [OState a' (length h4) (Some (length h2)) cost d']).
+  assert (X5 : ext h4 h5) by apply ext_app.
+  assert (X6 : ext h5 h6) by apply ext_app.
+  assert (Y2 : ext h h2) by (eapply ext_trans; eauto).
+  assert (Y3 : ext h h3) by (eapply ext_trans; eauto).
+  assert (Y4 : ext h h4) by (eapply ext_trans; eauto).
+  assert (Y5 : ext h h5) by (eapply ext_trans; eauto).
+  assert (Y6 : ext h h6) by (eapply ext_trans; eauto).
+  assert (Z4 : ext h4 h6) by (eapply ext_trans; eauto).
+  assert (Z3 : ext h3 h6) by (eapply ext_trans; eauto).
+  assert (Z2 : ext h2 h6) by (eapply ext_trans; eauto).
+  assert (Z1 : ext h1 h6) by (eapply ext_trans; eauto).
+  pose proof (ext_len _ _ Y2) as L2. pose proof (ext_len _ _ Y4) as L4.
+  pose proof (ext_len _ _ Y5) as L5. pose proof (ext_len _ _ X1) as L1.
+  destruct (H7 lb eq_refl) as [ls Hls].
+  assert (Hlab' : get h6 (length h2) = Some (OList (get_list h lb))).
+  { eapply ext_get; [exact Z3|]. apply get_app_new. }
+  assert (F2'' : Forall2 (fun c c' => forall ms, clus h c ms -> clus h6 c' ms) cs cs').
+  { eapply F2_imp; [|exact F2]. cbn beta. intros x y Hxy ms Hms. eapply clus_ext; eauto. }
+  exists a', (length h4), (length h2), d', lam', beta', cs'.
+  split; [|split; [|split; [|split; [|split; [|split; [|split; [|split; [|split; [|split; [|split]]]]]]]]]]; auto.
+  - repeat split; auto.
+    + apply get_app_new.
+    + eapply ext_get; [exact Z2|exact Ha'].
+    + eapply ext_get; [exact X6|]. apply get_app_new.
+    + lia.
+    + intros c Hc. eapply isclus_copy; eauto.
+    + intros l El. inversion El; subst. eauto.
+  - apply get_list_eq. auto.
+  - lia.
+  - eapply (fr2_mono h h1); eauto.
+  - eapply (fr2_mono h h1); eauto.
+  - intros [c Hc]. unfold d'.
+    destruct F4 as (l & c0 & El & Ll & _).
+    + intros l El. inversion El; subst. exists c. eapply ext_get; eauto.
+    + rewrite El. pose proof (ext_len _ _ Y3). lia.
+  - eapply F2_imp; [|exact F2']. cbn beta.
+    intros x y (ha & hb & A & B & C). exists ha, hb. split; auto. split; auto.
+    eapply ext_trans; eauto.
+Qed.
+
+(* ------------------------------------------------------------------ *)
+(* (T2), (T3)                                                          *)
+(* ------------------------------------------------------------------ *)
+
+Lemma InvD_deep h h' lb lab' cs cs' :
+  get_list h' lab' = get_list h lb ->
+  Forall2 (fun c c' => forall ms, clus h c ms -> clus h' c' ms) cs cs' ->
+  InvD h (Some lb) cs -> InvD h' (Some lab') cs'.
+Proof.
+  intros El F2 H. unfold InvD in *. rewrite El. intros k c' Hk.
+  destruct (F2_nth_r _ _ _ F2 k c' Hk) as [c [Hc HR]]. auto.
+Qed.
+
+Theorem step_wf_inv h s o h' s' :
+  WF h s -> Inv h s -> step (h, s) o = Some (h', s') -> WF h' s' /\ Inv h' s'.
+Proof.
+  intros HWF HI E. apply WF_SD in HWF.
+  destruct HWF as (a & cl & lab & cost & data & K & m & lam & beta & cs & HSD).
+  apply (Inv_InvD _ _ _ _ _ _ _ _ _ _ _ _ HSD) in HI.
+  destruct o as [ls| | |sp order draws|b|tg|ls c]; unfold step in E; cbv beta iota in E.
+  - unfold alloc in E. cbv beta iota in E. inversion E; subst h' s'. clear E.
+    destruct (setlabels_fresh_SD _ _ _ _ _ _ _ _ _ _ _ _ ls HSD) as (lab' & SD' & _ & _ & I').
+    eapply SD_good; eauto.
+  - inversion E as [E']. clear E.
+    destruct (shallow_SD _ _ _ _ _ _ _ _ _ _ _ _ _ _ HSD E') as (_ & _ & _ & SD' & I').
+    eapply SD_good; eauto.
+  - inversion E as [E']. clear E. destruct lab as [lb|].
+    + destruct (deep_full _ _ _ _ _ _ _ _ _ _ _ _ _ _ HSD E')
+        as (a' & cl' & lab' & data' & lam' & beta' & cs' & SD' & _ & El & F2 & _).
+      eapply SD_good; eauto. eapply InvD_deep; eauto.
+    + unfold state_deep_copy in E'. rewrite (proj1 HSD) in E'. inversion E'; subst h' s'.
+      eapply SD_good; eauto.
+  - destruct (repopulate_SD _ _ _ _ _ _ _ _ _ _ _ _ _ _ _ _ _ HSD E) as (cl' & lab' & cs' & SD' & _ & I').
+    eapply SD_good; eauto.
+  - destruct (statistics_SD _ _ _ _ _ _ _ _ _ _ _ _ _ _ _ HSD E) as (cl' & cs' & SD' & _ & I').
+    eapply SD_good; eauto.
+  - inversion E as [E']. clear E.
+    destruct (optimise_SD _ _ _ _ _ _ _ _ _ _ _ _ _ _ _ HSD E') as (cl' & cs' & SD' & _ & I').
+    eapply SD_good; eauto.
+  - inversion E as [E']. clear E.
+    destruct (relabel_SD _ _ _ _ _ _ _ _ _ _ _ _ _ _ _ _ HSD E') as (cl' & lab' & cs' & SD' & _ & I').
+    eapply SD_good; eauto.
+Qed.
+
+Lemma run_ops_wf_inv_gen ops : forall h s h' s',
+  WF h s -> Inv h s -> run_ops (h, s) ops = Some (h', s') -> WF h' s' /\ Inv h' s'.
+Proof.
+  induction ops as [|o r IH]; intros h s h' s' HW HI E; cbn [run_ops] in E.
+  - inversion E; subst. auto.
+  - destruct (step (h, s) o) as [[h1 s1]|] eqn:Es; [|discriminate].
+    destruct (step_wf_inv _ _ _ _ _ HW HI Es) as [HW1 HI1]. eapply IH; eauto.
+Qed.
+
+Theorem run_ops_wf_inv K m la ba ops h' s' :
+  run_ops (init K m la ba) ops = Some (h', s') -> WF h' s' /\ Inv h' s'.
+Proof.
+  pose proof (init_wf_inv K m la ba) as H0.
+  destruct (init K m la ba) as [h s]. destruct H0 as [HW HI].
+  apply run_ops_wf_inv_gen; auto.
+Qed.
+
+(* ------------------------------------------------------------------ *)
+(* (T6)                                                                *)
+(* ------------------------------------------------------------------ *)
+
+Theorem set_labels_immediate h s ls h' s' : WF h s -> Inv h s ->
+  step (h, s) (OpSetLabels ls) = Some (h', s') ->
+  s' = s /\ state_labels h' s = Some ls /\
+  (forall k c, nth_error (state_clusters h' s) k = Some c -> cluster_members h' c = positions ls k).
+Proof.
+  intros HWF HI E. apply WF_SD in HWF.
+  destruct HWF as (a & cl & lab & cost & data & K & m & lam & beta & cs & HSD).
+  apply (Inv_InvD _ _ _ _ _ _ _ _ _ _ _ _ HSD) in HI.
+  unfold step, alloc in E. cbv beta iota in E. inversion E; subst h' s'. clear E.
+  destruct (setlabels_fresh_SD _ _ _ _ _ _ _ _ _ _ _ _ ls HSD) as (lab' & SD' & _ & (l' & -> & Hl') & I').
+  split; auto.
+  rewrite (SD_labels _ _ _ _ _ _ _ _ _ _ _ _ SD'), (SD_clusters _ _ _ _ _ _ _ _ _ _ _ _ SD').
+  rewrite (get_list_eq _ _ _ Hl'). split; auto.
+  intros k c Hk. apply clus_members. specialize (I' HI). unfold InvD in I'.
+  rewrite (get_list_eq _ _ _ Hl') in I'. auto.
+Qed.
+
+(* ------------------------------------------------------------------ *)
+(* (T4) partition                                                      *)
+(* ------------------------------------------------------------------ *)
+
+Lemma in_combine_seq_conv (l : list nat) : forall a p,
+  p < length l -> In (a + p, nth p l 0) (combine (seq a (length l)) l).
+Proof.
+  induction l as [|x l IH]; intros a [|p] Hp; cbn in *; try lia.
+  - left. rewrite Nat.add_0_r. reflexivity.
+  - right. replace (a + S p) with (S a + p) by lia. apply IH. lia.
+Qed.
+
+Lemma members_complete labels p : p < length labels -> In p (members labels (nth p labels 0)).
+Proof.
+  intros Hp. unfold members. apply in_map_iff. exists (p, nth p labels 0). split; auto.
+  apply filter_In. split.
+  - apply (in_combine_seq_conv labels 0 p Hp).
+  - cbn. apply Nat.eqb_refl.
+Qed.
+
+Lemma NoDup_app_intro {A} (l l' : list A) :
+  NoDup l -> NoDup l' -> (forall x, In x l -> ~ In x l') -> NoDup (l ++ l').
+Proof.
+  induction 1 as [|x l Hn Hnd IH]; intros Hl' Hd; cbn; auto.
+  constructor.
+  - intros Hin. apply in_app_or in Hin. destruct Hin as [Hin|Hin]; auto.
+    apply (Hd x); auto. left; auto.
+  - apply IH; auto. intros y Hy. apply Hd. right; auto.
+Qed.
+
+Lemma in_concat_members labels ks p :
+  In p (concat (map (members labels) ks)) <-> exists k, In k ks /\ In p (members labels k).
+Proof.
+  rewrite in_concat. split.
+  - intros (l & Hl & Hp). apply in_map_iff in Hl. destruct Hl as (k & <- & Hk). eauto.
+  - intros (k & Hk & Hp). exists (members labels k). split; auto. apply in_map; auto.
+Qed.
+
+Lemma members_concat_NoDup labels : forall ks, NoDup ks -> NoDup (concat (map (members labels) ks)).
+Proof.
+  induction 1 as [|k ks Hn Hnd IH]; cbn; [constructor|].
+  apply NoDup_app_intro; auto.
+  - apply members_NoDup.
+  - intros p Hp Hq. apply in_concat_members in Hq. destruct Hq as (k' & Hk' & Hp').
+    apply members_lt in Hp, Hp'. destruct Hp as [_ <-], Hp' as [_ <-]. contradiction.
+Qed.
+
+Theorem positions_partition labels K : Forall (fun c => c < K) labels ->
+  Permutation (concat (map (positions labels) (seq 0 K))) (seq 0 (length labels)).
+Proof.
+  intros HF. unfold positions. apply NoDup_Permutation.
+  - apply members_concat_NoDup. apply seq_NoDup.
+  - apply seq_NoDup.
+  - intros p. rewrite in_concat_members, in_seq. split.
+    + intros (k & Hk & Hp). apply members_lt in Hp. lia.
+    + intros [_ Hp]. exists (nth p labels 0). split.
+      * apply in_seq. rewrite Forall_forall in HF.
+        pose proof (HF _ (nth_In labels 0 Hp)). lia.
+      * apply members_complete. cbn in Hp. lia.
+Qed.
+
+Lemma map_nth_seq {A} (f : loc -> A) (g : nat -> A) : forall cs a,
+  (forall k c, nth_error cs k = Some c -> f c = g (a + k)) ->
+  map f cs = map g (seq a (length cs)).
+Proof.
+  induction cs as [|c r IH]; intros a H; cbn; auto. f_equal.
+  - rewrite (H 0 c eq_refl). f_equal. lia.
+  - apply IH. intros k x Hk. rewrite (H (S k) x Hk). f_equal. lia.
+Qed.
+
+Theorem inv_partition h s labels : WF h s -> Inv h s -> state_labels h s = Some labels ->
+  Forall (fun c => c < state_K h s) labels ->
+  Permutation (concat (map (cluster_members h) (state_clusters h s))) (seq 0 (length labels)).
+Proof.
+  intros _ [HK HI] Hl HF. rewrite Hl in HI.
+  rewrite (map_nth_seq (cluster_members h) (positions labels) (state_clusters h s) 0 HI).
+  rewrite HK. apply positions_partition; auto.
+Qed.
+
+(* ------------------------------------------------------------------ *)
+(* (T5) frames                                                         *)
+(* ------------------------------------------------------------------ *)
+
+Theorem frame_repopulate h s spread order draws h' s' : WF h s ->
+  phase_repopulate h s spread order draws = Some (h', s') -> unchanged h h'.
+Proof.
+  intros HWF E. apply WF_SD in HWF.
+  destruct HWF as (a & cl & lab & cost & data & K & m & lam & beta & cs & HSD).
+  destruct (repopulate_SD _ _ _ _ _ _ _ _ _ _ _ _ _ _ _ _ _ HSD E) as (cl' & lab' & cs' & _ & X & _).
+  apply ext_unchanged; auto.
+Qed.
+
+Theorem frame_statistics h s b h' s' : WF h s ->
+  phase_statistics h s b = Some (h', s') -> unchanged h h'.
+Proof.
+  intros HWF E. apply WF_SD in HWF.
+  destruct HWF as (a & cl & lab & cost & data & K & m & lam & beta & cs & HSD).
+  destruct (statistics_SD _ _ _ _ _ _ _ _ _ _ _ _ _ _ _ HSD E) as (cl' & cs' & _ & X & _).
+  apply ext_unchanged; auto.
+Qed.
+
+Theorem frame_optimise h s mrf h' s' : WF h s ->
+  phase_optimise h s mrf = (h', s') -> unchanged h h'.
+Proof.
+  intros HWF E. apply WF_SD in HWF.
+  destruct HWF as (a & cl & lab & cost & data & K & m & lam & beta & cs & HSD).
+  destruct (optimise_SD _ _ _ _ _ _ _ _ _ _ _ _ _ _ _ HSD E) as (cl' & cs' & _ & X & _).
+  apply ext_unchanged; auto.
+Qed.
+
+Theorem frame_relabel h s ls cost h' s' : WF h s -> phase_relabel h s ls cost = (h', s') ->
+  forall l, l < length h ->
+    (~ In l (state_clusters h s) -> get h' l = get h l) /\
+    (In l (state_clusters h s) -> forall mem ec mean ti cc ic ld,
+        get h l = Some (OCluster mem ec mean ti cc ic ld) ->
+        exists ld', get h' l = Some (OCluster mem ec mean ti cc ti ld')).
+Proof.
+  intros HWF E l Hl. apply WF_SD in HWF.
+  destruct HWF as (a & cl & lab & cost0 & data & K & m & lam & beta & cs & HSD).
+  destruct (relabel_SD _ _ _ _ _ _ _ _ _ _ _ _ _ _ _ _ HSD E) as (cl' & lab' & cs' & _ & [_ X] & _).
+  rewrite (SD_clusters _ _ _ _ _ _ _ _ _ _ _ _ HSD).
+  destruct (cache_write_frame cs h) as (A & B & C).
+  assert (Hg : get h' l = get (cache_write h cs) l) by (apply X; lia).
+  split.
+  - intros Hn. rewrite Hg. auto.
+  - intros Hin mem ec mean ti cc ic ld Hc. rewrite Hg. eapply C; eauto.
+Qed.
+
+(* ------------------------------------------------------------------ *)
+(* (T7) deep copy                                                      *)
+(* ------------------------------------------------------------------ *)
+
+(* The statement of (T7) with WF alone is false: WF does not say that the array-valued
+   fields (data, lambda/beta, the five matrices of a cluster) point to arrays, and
+   copy_arr / args_deep_copy keep a reference that is not an array (np.copy of a non-array
+   is not modelled).  Counterexample: data points to the arguments object. *)
+Definition cex_heap : heap :=
+  [OArgs 0 0 None None; ORefs []; OList []; OState 0 1 (Some 2) None 0].
+
+Lemma deep_copy_fresh_needs_typed :
+  WF cex_heap 3 /\ state_labels cex_heap 3 <> None /\
+  ~ Forall (fun l => length cex_heap <= l)
+           (state_reach (fst (state_deep_copy cex_heap 3)) (snd (state_deep_copy cex_heap 3))).
+Proof.
+  split; [|split].
+  - exists 0, 1, (Some 2), None, 0, 0, 0, None, None, [].
+    repeat split; try reflexivity; try constructor.
+    + intros c [].
+    + intros l E. inversion E; subst. exists []. reflexivity.
+  - cbn. discriminate.
+  - intros H. rewrite Forall_forall in H.
+    assert (Hin : In 0 (state_reach (fst (state_deep_copy cex_heap 3)) (snd (state_deep_copy cex_heap 3)))).
+    { vm_compute. tauto. }
+    apply H in Hin. cbn in Hin. lia.
+Qed.
+
+(* the missing hypothesis: array-valued fields of the objects of the state are arrays *)
+Definition carr (h : heap) (c : loc) : Prop :=
+  forall mem ec mean ti cc ic ld, get h c = Some (OCluster mem ec mean ti cc ic ld) ->
+    oarr h ec /\ oarr h mean /\ oarr h ti /\ oarr h cc /\ oarr h ic.
+
+Definition Typed (h : heap) (s : loc) : Prop :=
+  forall a cl lab cost data, get h s = Some (OState a cl lab cost data) ->
+    (exists c, get h data = Some (OArr c)) /\
+    (forall K m lam beta, get h a = Some (OArgs K m lam beta) -> oarr h lam /\ oarr h beta) /\
+    (forall c, In c (get_refs h cl) -> carr h c).
+
+Lemma olocs_bound n x : (forall l, x = Some l -> n <= l) -> Forall (fun l => n <= l) (olocs x).
+Proof. intros H. destruct x as [l|]; cbn; constructor; auto. Qed.
+
+Lemma cluster_reach_fresh h' c' mem' ec' mean' ti' cc' ic' ld n :
+  get h' c' = Some (OCluster mem' ec' mean' ti' cc' ic' ld) -> n <= c' -> n <= mem' ->
+  (forall l, ec' = Some l -> n <= l) -> (forall l, mean' = Some l -> n <= l) ->
+  (forall l, ti' = Some l -> n <= l) -> (forall l, cc' = Some l -> n <= l) ->
+  (forall l, ic' = Some l -> n <= l) ->
+  Forall (fun l => n <= l) (cluster_reach h' c').
+Proof.
+  intros G H1 H2 H3 H4 H5 H6 H7. unfold cluster_reach. rewrite G.
+  constructor; auto. constructor; auto.
+  repeat (apply Forall_app; split); apply olocs_bound; auto.
+Qed.
+
+Lemma fr_bound h ha hb x x' :
+  ext h ha -> oarr h x -> fr ha hb x x' -> forall l0, x' = Some l0 -> length h <= l0.
+Proof.
+  intros HE Hx Hf l0 E0. destruct (Hf (oarr_ext _ _ _ HE Hx)) as (l & c & -> & Ll & _).
+  inversion E0; subst. destruct HE. lia.
+Qed.
+
+Lemma F2_forall_r {A B} (R : A -> B -> Prop) (Q : B -> Prop) l l' :
+  Forall2 R l l' -> (forall x y, In x l -> R x y -> Q y) -> Forall Q l'.
+Proof.
+  induction 1 as [|x y l l' Hxy HF IH]; intros H; constructor.
+  - apply (H x y); auto. left; auto.
+  - apply IH. intros a b Ha. apply H. right; auto.
+Qed.
+
+Lemma Forall_concat_map {A B} (P : B -> Prop) (f : A -> list B) l :
+  Forall (fun x => Forall P (f x)) l -> Forall P (concat (map f l)).
+Proof.
+  induction 1; cbn; [constructor|]. apply Forall_app. split; auto.
+Qed.
+
+Lemma members_copy h h' cs cs' :
+  Forall2 (fun c c' => forall ms, clus h c ms -> clus h' c' ms) cs cs' ->
+  (forall c, In c cs -> isclus h c) ->
+  map (cluster_members h') cs' = map (cluster_members h) cs.
+Proof.
+  induction 1 as [|x y l l' Hxy HF IH]; intros Hcl; cbn; auto. f_equal.
+  - destruct (Hcl x (in_eq _ _)) as [ms Hms].
+    rewrite (clus_members _ _ _ Hms), (clus_members _ _ _ (Hxy ms Hms)). reflexivity.
+  - apply IH. intros c Hc. apply Hcl. right; auto.
+Qed.
+
+Theorem deep_copy_fresh h s h' s' : WF h s -> Typed h s -> state_labels h s <> None ->
+  state_deep_copy h s = (h', s') ->
+  unchanged h h' /\ Forall (fun l => length h <= l) (state_reach h' s') /\ WF h' s' /\
+  state_labels h' s' = state_labels h s /\
+  map (cluster_members h') (state_clusters h' s') = map (cluster_members h) (state_clusters h s).
+Proof.
+  intros HWF HT Hlab E. apply WF_SD in HWF.
+  destruct HWF as (a & cl & lab & cost & data & K & m & lam & beta & cs & HSD).
+  rewrite (SD_labels _ _ _ _ _ _ _ _ _ _ _ _ HSD) in Hlab.
+  destruct lab as [lb|]; [clear Hlab|congruence].
+  pose proof HSD as (H1 & H2 & H3 & H4 & H5 & H6 & H7).
+  destruct (HT _ _ _ _ _ H1) as (Hd & Hargs & Hcarr).
+  destruct (Hargs _ _ _ _ H2) as [Hlam Hbeta].
+  rewrite (SD_refs _ _ _ _ _ _ _ _ _ _ _ _ HSD) in Hcarr.
+  destruct (deep_full _ _ _ _ _ _ _ _ _ _ _ _ _ _ HSD E)
+    as (a' & cl' & lab' & data' & lam' & beta' & cs' & SD' & X & El & F2 & Ls & La & Lcl & Ll
+        & Fl & Fb & Fd & F2').
+  pose proof SD' as (G1 & G2 & G3 & G4 & G5 & G6 & G7).
+  split; [apply ext_unchanged; auto|]. split; [|split; [|split]].
+  - unfold state_reach. rewrite G1, G2, (SD_refs _ _ _ _ _ _ _ _ _ _ _ _ SD').
+    constructor; auto. constructor; auto.
+    apply Forall_app. split.
+    { apply Forall_app. split; apply olocs_bound; auto. }
+    constructor; auto.
+    apply Forall_app. split; [|cbn; repeat constructor; auto].
+    apply Forall_concat_map.
+    eapply F2_forall_r; [exact F2'|]. cbn beta.
+    intros c c' Hc (ha & hb & Xa & Xb & Ec).
+    destruct (H6 c Hc) as (ms & mem & ec & mean & ti & cc & ic & ld & Gc & Gm).
+    destruct (Hcarr c Hc _ _ _ _ _ _ _ Gc) as (T1 & T2 & T3 & T4 & T5).
+    destruct (cluster_deep_copy_spec _ _ _ _ _ _ _ _ _ _ _ _
+                (ext_get _ _ _ _ Xa Gc) (ext_get _ _ _ _ Xa Gm) Ec)
+      as (_ & Bc' & mem' & ec' & mean' & ti' & cc' & ic' & Gc' & _ & Lm & Fe & Fm & Ft & Fc & Fi).
+    pose proof (ext_len _ _ Xa) as La'.
+    eapply cluster_reach_fresh.
+    + eapply ext_get; [exact Xb|exact Gc'].
+    + lia.
+    + lia.
+    + eapply fr_bound; eauto.
+    + eapply fr_bound; eauto.
+    + eapply fr_bound; eauto.
+    + eapply fr_bound; eauto.
+    + eapply fr_bound; eauto.
+  - apply WF_SD. exists a', cl', (Some lab'), cost, data', K, m, lam', beta', cs'. auto.
+  - rewrite (SD_labels _ _ _ _ _ _ _ _ _ _ _ _ SD'), (SD_labels _ _ _ _ _ _ _ _ _ _ _ _ HSD).
+    rewrite El. reflexivity.
+  - rewrite (SD_clusters _ _ _ _ _ _ _ _ _ _ _ _ SD'), (SD_clusters _ _ _ _ _ _ _ _ _ _ _ _ HSD).
+    apply members_copy; auto.
 Qed.
